@@ -175,6 +175,9 @@ void mcount_rstack_rehook_exception(struct mcount_thread_data *mtdp, unsigned lo
 			rstack->end_time = mcount_gettime();
 
 		mcount_exit_filter_record(mtdp, rstack, NULL);
+
+		/* an abandoned library call: keep its PLT entry hooked */
+		mcount_plthook_rearm(mtdp, rstack);
 	}
 
 	/* we're in ENTER state, so add 1 to the index */
